@@ -160,7 +160,8 @@ def sub_table(case):
             est_name = "%s_%d" % (est_name, i)
         r.info["est_name"] = os.path.join(case["est_dir"], est_name) if case["est_dir"] else est_name
         r.info["ref_name"] = "reference_%d" % (7 - i)
-        p = os.path.join(d, "res_%d.zip" % i)
+        # file names whose lexicographic order need not be the order on the command line
+        p = os.path.join(d, "res_%d.zip" % ((len(rs) - 1 - i) if case.get("rev_names") else i))
         file_interface.save_res_file(p, r)
         files.append(p)
         labels.append(p if case["use_filenames"] else os.path.basename(r.info["est_name"]))
@@ -193,6 +194,10 @@ def sub_table(case):
             raise Mismatch("merged table has %d rows" % len(tab), observed="table_rows")
         row = list(tab.values())[0]
         n = len(rs)
+        # the info of the first result GIVEN is kept: the merged row carries its estimate name
+        first_label = os.path.basename(rs[0].info["est_name"])
+        if list(tab)[0] != first_label:
+            raise Mismatch("merged row is labelled %r, the first result given is %r" % (list(tab)[0], first_label), observed="table_label", what="merge")
         for k in rs[0].stats:
             exp = math.fsum(r.stats[k] for r in rs) / n
             _cmp_cell(row, k, exp, "merged", math.fsum(abs(r.stats[k]) for r in rs))
@@ -271,7 +276,7 @@ st_merge = st.fixed_dictionaries({"results": st_results(1, 8), "as_tuple": st.bo
 st_table = st.fixed_dictionaries({
     "results": st_results(1, 5), "use_filenames": st.booleans(), "merge": st.booleans(), "ignore_title": st.just(True),
     "dup_labels": st.booleans(), "est_names": st.lists(st.sampled_from(["est.txt", "a.tum", "traj", "ORB_SLAM", "x y"]), min_size=1, max_size=3),
-    "est_dir": st.sampled_from(["", "/data/run1", "rel/dir"])})
+    "est_dir": st.sampled_from(["", "/data/run1", "rel/dir"]), "rev_names": st.booleans()})
 
 
 def _nt(case):
@@ -286,5 +291,5 @@ def _nt(case):
 SUBS = [
     Sub("merge", sub_merge, st_merge, 2500, 80000, nontrivial=_nt),
     Sub("empty", sub_empty, st.just({}), 1, 1),
-    Sub("table", sub_table, st_table, 120, 4000, nontrivial=lambda c: len(c["results"]) >= 2, shards_quick=8),
+    Sub("table", sub_table, st_table, 200, 6000, nontrivial=lambda c: len(c["results"]) >= 2, shards_quick=8),
 ]
